@@ -19,6 +19,8 @@ tvars == <<l, ws>>
 TraceInit == l = 1 /\ ws = {}
 
 Reject(e) == PrintT(<<"REJECT", l, e.op, ToJson(Expected(e))>>)
+\* a line the specification rejects but a named, recorded deviation explains
+Known(e, d) == PrintT(<<"KNOWN", l, e.op, d>>)
 
 TraceNext ==
   /\ l <= Len(Trace)
@@ -28,7 +30,9 @@ TraceNext ==
        THEN /\ ws' = MachineLogged(e)          \* resynchronise on the logged state
             /\ IF MachineExplains(e, ws) THEN TRUE ELSE Reject(e)
        ELSE /\ ws' = ws
-            /\ IF Explains(e) THEN TRUE ELSE Reject(e)
+            /\ IF Explains(e) THEN TRUE
+               ELSE IF KnownDeviation(e) # "" THEN Known(e, KnownDeviation(e))
+               ELSE Reject(e)
 
 TraceSpec == TraceInit /\ [][TraceNext]_tvars
 
